@@ -95,6 +95,10 @@ func (g *c13Gen) scalar() *aNode {
 	case 2:
 		return &aNode{kind: "scalar", val: ref.NullV()}
 	default:
+		if r.IntN(3) == 0 {
+			// a VALUE spelled like one of the key names (a resolver that mixes up key and value positions shows)
+			return &aNode{kind: "scalar", val: ref.StrV(c13Keys[r.IntN(len(c13Keys))])}
+		}
 		return &aNode{kind: "scalar", val: ref.StrV([]string{"a", "text", "v1", "hello world", "x y"}[r.IntN(5)])}
 	}
 }
